@@ -15,7 +15,7 @@ import sketchnu.countmin as cmmod
 
 RULE = (
     "Fault enumeration over crash points of save(): for each of the five classes and 2 (quick) / 6 (thorough) seed-derived shapes with random "
-    "histories (files of 0.6-20 kB), EVERY strict prefix length 0..len-1 of the saved file (saved to a fresh path, or over an existing larger sketch file, or over arbitrary longer content) is written to disk under rotating names (part.npz, full.part, full.npz.tmp, full) next to the complete full.npz and loaded (the argument given as path string, pathlib.Path, open binary file or non-seekable stream, in rotation) through the class "
+    "histories (files of 0.6-20 kB), EVERY strict prefix length 0..len-1 of the saved file (saved to a fresh path, or over an existing larger sketch file, or over arbitrary longer content) is written to disk under rotating names (part.npz, full.part, full.npz.tmp, full) next to the complete full.npz and loaded (the argument given as path string, pathlib.Path, open binary file or non-seekable stream, in rotation; blocks of 16 consecutive lengths alternately on the main thread and on a second thread; the saved sketch lives in memory or, for half of the files, in shared memory) through the class "
     "loader (with shared_memory False, and True for one shape per class) and, for count-min, through countmin.load; the complete file must load "
     "and equal the saved sketch (parameters, tables, bookkeeping, queries). The same enumeration is repeated for one shape per class in an interpreter started with -O (assert statements stripped), and files of 1 MB and more (one per class: 1 MiB linear table, 2^19+3 log16 counters, 1.2 MB log8, 20000x3x16 heavy hitters, p=16) are cut at the last 4096 lengths, the first 300, around every zip member boundary and at 1500 drawn lengths. Oracle: every strict prefix raises an exception (any type); returning any "
     "object is a violation. Non-trivial: a prefix that ends inside a member's data, a later local header or the central directory / end record "
@@ -53,8 +53,8 @@ def shapes(kind, rng, n):
     return out
 
 
-def build(cfg, rng):
-    sk = make_sketch(cfg)
+def build(cfg, rng, shared=False):
+    sk = make_sketch(cfg, shared)  # shared: the saved sketch itself lives in shared memory (as every parallel_add result does)
     n = int(rng.integers(5, 60))
     for _ in range(n):
         k = KEYS[int(rng.integers(0, len(KEYS)))] + bytes(rng.integers(0, 256, int(rng.integers(0, 4)), dtype=np.uint8))
@@ -110,7 +110,12 @@ def regions(data):
     """(first_header_end, central_directory_start) of the complete zip file"""
     import io
 
-    zf = zipfile.ZipFile(io.BytesIO(data))
+    try:
+        zf = zipfile.ZipFile(io.BytesIO(data))
+    except zipfile.BadZipFile:
+        # the property does not prescribe the container: for a file that is not a zip archive the regions are unknown
+        # and every prefix beyond the first 64 bytes counts as non-trivial
+        return min(64, len(data)), len(data)
     infos = sorted(zf.infolist(), key=lambda i: i.header_offset)
     first = infos[0]
     first_end = first.header_offset + 30 + len(first.filename.encode()) + len(first.extra)
@@ -123,7 +128,8 @@ def _task(arg):
     rng = np.random.default_rng(seed)
     tmp = tempfile.mkdtemp(prefix="vf_c20_")
     try:
-        sk = build(cfg, rng)
+        saved_shared = (int(seed) // 3) % 2 == 1 or bool(shm)
+        sk = build(cfg, rng, saved_shared)
         full = os.path.join(tmp, "full.npz")
         pre = int(seed) % 3
         if pre == 1:  # the path already holds a LARGER sketch file of the same class (re-saving over an old file)
@@ -152,6 +158,9 @@ def _task(arg):
         # the truncated file gets various names, next to the complete full.npz (a partial download / temp file)
         names = [os.path.join(tmp, x) for x in ("part.npz", "full.part", "full.npz.tmp", "full")]
         cls = {"in_first_header": 0, "in_member_data_or_headers": 0, "in_central_directory": 0}
+        import concurrent.futures as cf
+
+        side = cf.ThreadPoolExecutor(1)  # sequential use of the loaders from a thread other than the main one
         for n in range(len(data)):
             part = names[n % len(names)]
             with open(part, "wb") as f:
@@ -170,7 +179,7 @@ def _task(arg):
                     arg = fh = open(part, "rb")
                 else:
                     arg = fh = _Pipe(data[:n])
-                obj = loader(arg, shm)
+                obj = side.submit(loader, arg, shm).result() if (n // 16) % 2 else loader(arg, shm)
             except Exception:
                 obj = None
             finally:
@@ -183,8 +192,10 @@ def _task(arg):
                 rec.violation(dict(case0, prefix=n), f"{kind} {cfg}: a {n}-byte prefix of the {len(data)}-byte file loaded through {via} loader (shared_memory={shm}) and returned {type(obj).__name__} ({region})", "prefix-loaded")
                 del obj
                 break
+        side.shutdown()
         nt = cls["in_member_data_or_headers"] + cls["in_central_directory"]
         rec.bulk(sum(cls.values()), nt, dict(case0, example_prefix=cd_start + 3), {f"prefix_{k}": v for k, v in cls.items()})
+        rec.count("files_saved_from_a_shared_memory_sketch" if saved_shared else "files_saved_from_an_in_memory_sketch")
         rec.count(f"files_{kind}")
         del sk
     finally:
@@ -225,8 +236,11 @@ def _big_task(arg):
             return rec
         with open(full, "rb") as f:
             first_end, cd_start = regions(f.read())
-        with zipfile.ZipFile(full) as zf:
-            bounds = [i.header_offset for i in zf.infolist()] + [cd_start]
+        try:
+            with zipfile.ZipFile(full) as zf:
+                bounds = [i.header_offset for i in zf.infolist()] + [cd_start]
+        except zipfile.BadZipFile:
+            bounds = []
         offs = set(range(max(0, data_len - 4096), data_len)) | set(range(0, 300))
         for b in bounds:
             offs |= set(range(max(0, b - 40), min(data_len, b + 120)))
@@ -266,6 +280,8 @@ def jobs_for(tier, seed):
                 jobs.append((kind, cfg, "module", False, s))
             if t == 0:
                 jobs.append((kind, cfg, "class", True, s))
+            if t <= 1 and (s // 3) % 2 == 0:  # a file saved from a sketch that lives in shared memory, read back by the ordinary loader
+                jobs.append((kind, cfg, "class", False, s + 3))
     return jobs
 
 
